@@ -17,6 +17,7 @@ checked on real certificate blocks by the harness.
 -/
 import SpsdkVerif.Model.Sb31
 import SpsdkVerif.Proofs.Sb31
+import SpsdkVerif.Proofs.CertBlockRom
 
 namespace SpsdkVerif.C05
 open SpsdkVerif SpsdkVerif.Misc SpsdkVerif.Crypto SpsdkVerif.Generated
@@ -225,6 +226,62 @@ theorem tampered_blocks_refused (hc : CryptoLaws c) (s : ObjState) (hg : Good c 
   rcases tamper_blocks_detected hc s hg wf dev obs hd r rest' res h with e | b
   · left; rw [e, exportSb_bytes]; simp [signedOf, List.append_assoc]
   · right; exact b
+
+/-- the loader accepts a file only on the strength of ONE signature check whose message is exactly the prefix of
+    the file that ends where the signature field begins (header ‖ hash of block 1 ‖ certificate block) -/
+theorem accepted_manifest_signed (c : CryptoOps) (dev : Dev) (file : Sb31.Bytes) (res : RomOk)
+    (h : romLoad c dev file = .ok res) :
+    ∃ ob, res.obligations.getLast? = some ob ∧ ob.msg = file.take (res.hdr.totalLength - 2 * ob.coord) ∧
+      ob.sig.length = 2 * ob.coord ∧ file = ob.msg ++ (ob.sig ++ file.drop res.hdr.totalLength) ∧
+      c.verify (.ecdsa (algOfCoord ob.coord)) ob.pub ob.msg ob.sig = true := by
+  obtain ⟨b0, hb0, hh, hobs⟩ := romLoad_inv c dev file res h
+  obtain ⟨pub, sig, obs', hob, hver, hlen, hsplit, hpl, h2⟩ := parseBlock0_inv c dev.rotkh file b0 hb0
+  refine ⟨⟨b0.hl, pub, file.take (b0.hdr.totalLength - 2 * b0.hl), sig⟩, ?_, by rw [hh], hlen, ?_, hver⟩
+  · rw [hobs, hob]; simp
+  · dsimp only
+    have hd : file.drop res.hdr.totalLength = b0.rest := by
+      rw [hh]
+      conv => lhs; rw [hsplit, ← List.append_assoc]
+      apply List.drop_left'
+      simp only [List.length_append, hpl, hlen]; omega
+    rw [hd]; exact hsplit
+
+/-- ONE SIGNATURE AUTHENTICATES THE WHOLE FILE: any file the loader accepts on the strength of the genuine
+    signature of an export (same signing key, same bytes in its signature field) IS that export — otherwise a
+    signature forgery (another manifest verifying under the old signature) or a hash collision (another data
+    block with the expected digest) is exhibited.  Completes `chain_binding` / `tampered_blocks_refused`. -/
+theorem whole_file_authenticated (hc : CryptoLaws c) (s : ObjState) (hg : Good c s) (wf : StateWF c s)
+    (dev : Dev) (obs : List SigOb) (hd : DevOK c dev s obs) (r : Rand) (file' : Sb31.Bytes) (res : RomOk)
+    (h : romLoad c dev file' = .ok res) (ob : SigOb) (hlast : res.obligations.getLast? = some ob)
+    (hkey : ob.pub = c.pubOf s.cfg.sk) (hsig : ob.sig = sigOf c s r) :
+    file' = (exportSb c s r).2 ∨ Break c :=
+  whole_file_bound hc s hg wf dev obs hd r file' res h ob hlast hkey hsig
+
+/-! ## 6. end to end with the certificate block of the C03 model (discharges `DevOK.cert`) -/
+
+/-- the certificate block is no longer opaque: when it is the export of a well-formed C03 certificate block v2.1
+    (`CertBlock.bytesV21 cb`, i.e. `CertBlockV21.export()` by C03's correspondence) whose signer (ISK if present,
+    else the used root key) is the container's signing key, and the device fuses hold the hash of its root key
+    record, the loader accepts the container — for every history -/
+theorem rom_accepts_cert_model (hc : CryptoLaws c) (s : ObjState) (hg : Good c s) (ops : List Op)
+    (wf : StateWF c (run c s ops)) (dev : Dev) (r : Rand)
+    {pointOk : Sb31.Bytes → Bool} {ca : Bool} {used : Nat} {cv : Spec.Curve} {cb : CertBlock.CertBlockV21}
+    (wfc : CertBlock.WFv21 c pointOk ca used cv cb) (rwf : CertBlock.RomWF c used cv cb)
+    (hisk : ∀ i, cb.isk = some i → c.verify (.ecdsa cv.hashAlg) cb.rkr.rootPublicKey
+      (CertBlock.rkrBytes cb.rkr ++ CertBlock.iskSignedPart i) i.signature = true)
+    (hcert : s.cfg.cert = CertBlock.bytesV21 cb)
+    (hsigner : CertBlock.signerOf cv cb = (c.pubOf s.cfg.sk, s.cfg.hashLen))
+    (hpck : dev.pck = s.cfg.pck) (hrights : dev.rights = s.cfg.rights) (henc : dev.encrypted = s.cfg.encrypted)
+    (hrot : dev.rotkh = CertBlock.rotkhOfRecord c cv cb.rkr) :
+    CertBlock.exportV21Block cb = .ok s.cfg.cert ∧
+    ∃ ob, romLoad c dev (exportSb c (run c s ops) r).2 = .ok ⟨hdrSpec (run c s ops), s.cmds ++ addsOf ops, ob⟩ := by
+  refine ⟨by rw [hcert]; exact CertBlock.exportV21Block_ok wfc, ?_⟩
+  have hcfg := (run_frame c ops s).1
+  have hrc := CertBlock.sb31_romCert_accepts wfc rwf hisk
+  rw [hsigner] at hrc
+  exact history hc s hg ops wf dev _
+    ⟨by rw [hcfg]; exact hpck, by rw [hcfg]; exact hrights, by rw [hcfg]; exact henc,
+     by rw [hcfg, hcert, hrot]; exact hrc⟩ r
 
 /-! ## non-vacuity: the hypotheses are satisfiable by a concrete, non-trivial container -/
 
